@@ -406,7 +406,7 @@ def run_family(fam, tier):
 
 
 ASSUMPTIONS = [
-    "float inputs finite, |x| <= 2^100; Real arithmetic with uninterpreted transcendentals; unknown elementwise operators as uninterpreted functions per (op, attributes)",
+    "float inputs finite, |x| <= 2^16; Real arithmetic with uninterpreted transcendentals; unknown elementwise operators as uninterpreted functions per (op, attributes)",
     "comparator: exact for ints/bools, |a-b| <= 1e-6(1+|b|) for floats (rewrites are structural)",
     "symbolic dims are evaluated for a lattice of bindings (value mode); C04's shape mode covers all bindings",
     "a pass that raises is the loud path (C16) and is not counted here",
